@@ -74,10 +74,12 @@ def kinds_of(s, acc):
     return acc
 
 
-def binding_a(binp, v, scd, tag, raw, id_base, max_hang_cases, rnd):
+def binding_a(binp, v, scd, tag, raw, id_base, max_hang_cases, rnd, max_cases=None):
     """Execute TLC-emitted programs and compare with the emitted expectation. Returns stats."""
+    n_emitted = len(raw)
     excl = sum(1 for c in raw if c["excl"] or c.get("mexcl"))
     cases, hang_pred, seen = [], 0, set()
+    raw = lib.sample([c for c in raw if not (c["excl"] or c.get("mexcl"))], max_cases, rnd)
     for c in raw:
         if c["excl"] or c["mexcl"]:      # outside the bounds for the structured run or for the as-coded machine
             continue
@@ -105,7 +107,7 @@ def binding_a(binp, v, scd, tag, raw, id_base, max_hang_cases, rnd):
     # isolation re-run: only the disagreeing cases, fresh processes
     again = {}
     if bad:
-        _, res2 = execute(binp, path, os.path.join(scd, "a-%s-confirm.ndjson" % tag), only=[c["id"] for c in bad], par=2)
+        _, res2 = execute(binp, path, os.path.join(scd, "a-%s-confirm.ndjson" % tag), only=[c["id"] for c in bad], par=3)
         again = {c["id"]: c for c in res2}
     for c in bad:
         c2 = again.get(c["id"])
@@ -124,7 +126,7 @@ def binding_a(binp, v, scd, tag, raw, id_base, max_hang_cases, rnd):
     kinds = set()
     for c in res:
         kinds_of(c["prog"]["body"], kinds)
-    return {"emitted": len(raw), "excluded": excl, "executed": len(res), "nontrivial": nt, "mismatches": len(bad), "kinds": sorted(kinds),
+    return {"emitted": n_emitted, "excluded": excl, "executed": len(res), "nontrivial": nt, "mismatches": len(bad), "kinds": sorted(kinds),
             "coded": sum(1 for c in bad if canon(c["got"]) == canon(c["mach"])), "model_drift": drift,
             "predicted_hang": hang_pred, "samples": samples, "outcomes": rep["extra"].get("outcomes")}
 
@@ -162,7 +164,7 @@ def binding_b(binp, v, scd, tag, cases_path, chunk):
     again = {}
     if bad:
         ctrace = os.path.join(scd, "b-%s-confirm.ndjson" % tag)
-        execute(binp, cases_path, ctrace, only=[j["id"] for j in bad], par=2)
+        execute(binp, cases_path, ctrace, only=[j["id"] for j in bad], par=3)
         again, _ = judge(ctrace, 200)
     for j in bad:
         ev, j2 = j["ev"], again.get(j["id"])
@@ -227,7 +229,7 @@ def check(tier):
             lib.log("[C24] TLC exhaustive done %.1fs (%d states, %d cases emitted)" % (time.time() - t0, r.distinct, len(raw)))
             if r.distinct < 1000:
                 raise lib.Inconclusive("exhaustive enumeration too small: %d states" % r.distinct)
-            st = binding_a(binp, v, scd, "exh", raw, 2000000, 3 if quick else 30, rnd)
+            st = binding_a(binp, v, scd, "exh", raw, 2000000, 3 if quick else 30, rnd, max_cases=1200 if quick else 9000)
             lib.log("[C24] binding A (exhaustive) done %.1fs: %s" % (time.time() - t0, {k: st[k] for k in ("executed", "excluded", "mismatches", "coded", "nontrivial", "model_drift")}))
             return r, st
 
@@ -291,7 +293,14 @@ def check(tier):
         if errs:
             return v.finish()
         (r_exh, xst), (r_sim, ast), bst = fs[0].result(), fs[1].result(), fs[2].result()
-        # vacuity guards
+        # vacuity guards (a reproduced violation outranks them: a defect can remove a whole outcome class)
+        if v.violations:
+            lib.write_evidence(PID, tier, "model_checking", {"states": r_exh.distinct, "transitions": r_exh.generated,
+                               "traces_validated_against_impl": ast["executed"] + xst["executed"] + bst["judged"],
+                               "samples": [x["detail"].get("sql") for x in v.violations[:3]],
+                               "rule": "run ended with reproduced violations; coverage counters not evaluated"},
+                               time.time() - t0, violations=len(v.violations))
+            return v.finish()
         if ast["executed"] < nsim * 0.5 or ast["nontrivial"] < ast["executed"] * 0.1:
             raise lib.Inconclusive("vacuous binding A: %s" % ast)
         if bst["ok"] + bst["mismatches"] < nb * 0.6 or bst["nontrivial"] < nb * 0.1:
@@ -313,7 +322,7 @@ def check(tier):
             "exhaustive": True,
             "evaluations": executed,
             "distinct_nontrivial": ast["nontrivial"] + xst["nontrivial"] + bst["nontrivial"],
-            "rule": "theorem 'repaired op-code machine == structured semantics' checked by TLC on every program of the exhaustive configuration (%s: %d states = heads + complete programs; first statement in Init, rest in Next) and on %d tape-decoded random programs (nesting <= 3, <= 6 statement nodes, 2 variables, loop bound 3); binding A executes the emitted programs (all sampled ones, one in EmitOneIn of the exhaustive ones) on a fresh engine and compares user variables, last result set, log rows and error class with the structured expectation; binding B executes %d generator programs (nesting <= 4, <= 12 payload nodes, 3 variables, nested handlers) plus the finding witnesses and TLC validates each record; non-trivial = the structured run takes a LEAVE/ITERATE, enters a handler, or iterates some loop at least twice"
+            "rule": "theorem 'repaired op-code machine == structured semantics' checked by TLC on every program of the exhaustive configuration (%s: %d states = heads + complete programs; first statement in Init, rest in Next) and on %d tape-decoded random programs (nesting <= 3, <= 6 statement nodes, 2 variables, loop bound 3); binding A executes the emitted programs (all sampled ones; of the exhaustive ones one in EmitOneIn plus every program containing an ITERATE) on a fresh engine and compares user variables, last result set, log rows and error class with the structured expectation; binding B executes %d generator programs (nesting <= 4, <= 12 payload nodes, 3 variables, nested handlers) plus the finding witnesses and TLC validates each record; non-trivial = the structured run takes a LEAVE/ITERATE, enters a handler, or iterates some loop at least twice"
                     % (exh_cfg, r_exh.distinct, nsim, nb),
             "theorem_programs_checked": programs_theorem,
             "binding_a_sampled": {k: ast[k] for k in ast if k != "samples"},
